@@ -144,7 +144,7 @@ func cmdDump(args []string) int {
 		return 2
 	}
 	for _, f := range L.AllFns {
-		key := f.RelString(nil)
+		key := normKey(f.RelString(nil))
 		if !strings.Contains(key, *fn) {
 			continue
 		}
